@@ -35,7 +35,11 @@ func (d *Driver) read() {
 
 		rb, err := d.Channel.Read()
 		if err != nil {
-			d.errs <- err
+			select {
+			case d.errs <- err:
+			case <-d.done:
+				return
+			}
 		}
 
 		b = append(b, rb...)
